@@ -60,9 +60,22 @@ def worker(version, args):
                 t.new_effect.change_object_attack(armour_attack_class=4, armour_attack_quantity=0xFFFB)
             else:
                 t.new_effect.change_object_attack(armour_attack_class=4, armour_attack_quantity=0xFB)
+            t.new_effect.change_object_armor(armour_attack_class=1, armour_attack_quantity=1)
             d = os.path.join(tmp, "in_probe"); os.makedirs(d)
             p = os.path.join(d, "base.aoe2scenario")
             st, e = common.outcome(scn.write_to_file, p)
+            if st == "ok":
+                # ... and a second variant whose stored armour/attack quantity is -1 (unset) / negative, written at section
+                # level (the normal form allows any s32 there; the managers must hand it back unchanged)
+                eff = scn.sections["Triggers"].trigger_data[len(scn.trigger_manager.triggers) - 1].effect_data
+                eff[-1].quantity = -1
+                eff[-2].quantity = -300
+                d2 = os.path.join(tmp, "in_probe2"); os.makedirs(d2)
+                p2 = os.path.join(d2, "base.aoe2scenario")
+                st2, e2 = common.outcome(scn.write_to_file, p2, skip_reconstruction=True, skip_validation=True)
+                if st2 == "ok":
+                    nstr2 = sum(1 for t_ in scn.trigger_manager.triggers for ef in t_.effects for a_ in ("message", "sound_name") if _used_string(ef, a_))
+                    inputs.append(("section-edited", p2, True, {"probe": "negative-stored-aa-quantity", "used_effect_strings": nstr2}))
         if st == "ok":
             nstr = sum(1 for t in scn.trigger_manager.triggers for ef in t.effects for a in ("message", "sound_name") if _used_string(ef, a))
             inputs.append(("history", p, True, {"probe": "used-effect-strings", "used_effect_strings": nstr}))
@@ -140,6 +153,23 @@ def worker(version, args):
                     p = os.path.join(d, "base.aoe2scenario")
                     open(p, "wb").write(h + cc.deflate(b))
                     gen_inputs.append(("generated", p, True, {"tree_hash": hashlib.sha256(t.encode()).hexdigest()[:12]}))
+        # ---- the embedded file name follows the output name: two saves of ONE object under different names ------------
+        with cc.quiet():
+            scn = AoE2DEScenario.from_file(small)
+            names_seen = []
+            for stem in ("first_name", "second_name"):
+                dd = os.path.join(tmp, "ren_" + stem); os.makedirs(dd)
+                pp = os.path.join(dd, stem + ".aoe2scenario")
+                st, e = common.outcome(scn.write_to_file, pp)
+                if st == "ok":
+                    st2, s2 = common.outcome(cc.load_sections_only, pp, version)
+                    names_seen.append((stem, s2.sections["DataHeader"].filename if st2 == "ok" else "<unreadable>"))
+        del scn
+        for stem, got in names_seen:
+            R.case(key=f"rename:{stem}", nontrivial=True, tags=("rename",))
+            if got != stem:
+                R.violation({"kind": "embedded-filename", "save": stem}, f"the file written as {stem!r} embeds the file name {got!r}",
+                            {"version": version, "op": "two saves of one scenario object under different names", "stem": stem, "embedded": got})
         # ---- round trips ------------------------------------------------------------------------------
         cmds, expect = [f"table {version}"], []
         for label, path, nontrivial, info in inputs + gen_inputs:
@@ -176,7 +206,7 @@ def worker(version, args):
                 if (ih, ib) != (oh, ob):
                     delta = len(ob) - len(ib)
                     sig = {"kind": "bytes-differ", "mode": mode, "input": label}
-                    if skip and label == "history" and info.get("used_effect_strings") and delta == -info["used_effect_strings"] and ih == oh:
+                    if skip and info.get("used_effect_strings") and delta == -info["used_effect_strings"] and ih == oh:
                         sig = {"kind": "effect-string-terminator-dropped", "mode": "skip"}
                     pos = next((k for k in range(min(len(ib), len(ob))) if ib[k] != ob[k]), min(len(ib), len(ob)))
                     R.violation(sig, f"{label} file changes on an unedited {mode} round trip (body {len(ib)} -> {len(ob)} bytes, first difference at body offset {pos}, header equal: {ih == oh})",
@@ -196,8 +226,8 @@ def worker(version, args):
                 h, b = [cc.unhexd(x.split("=", 1)[1]) for x in o.split()[1:]]
                 if (h, b) != (ih, ib):
                     # the model mirrors the library's codec; if both change the file the oracle above has reported it
-                    R.dist["model:changes-file-like-library" if label == "history" and info.get("used_effect_strings") else "model:differs"] += 1
-                    if not (label == "history" and info.get("used_effect_strings")):
+                    R.dist["model:changes-file-like-library" if info.get("used_effect_strings") else "model:differs"] += 1
+                    if not info.get("used_effect_strings"):
                         R.mismatch(f"model: ser(parse(x)) != x for a {label} file", {"version": version, "input": label, **info})
                 else:
                     R.traces += 1
